@@ -155,7 +155,6 @@ func (r argRef) replay() map[string]any {
 	return map[string]any{"op": "argmap", "schema": r.sdl, "document": r.doc, "op_index": r.oi, "coerce": r.coerce, "vars": r.vars}
 }
 
-
 // runArgMaps: the real ArgumentMap on every site of every (document, operation, variables) of refs,
 // compared with the model (correspondence) and with argSpec (C15)
 func (c *Ctx) runArgMaps(refs []argRef, st *argStats, dist map[string]int) {
